@@ -17,6 +17,13 @@ func randPrefix(r *Rng) string {
 		return []string{"aa", "aab", "abab", "xyx", "q"}[r.Intn(5)]
 	case 1:
 		return "PREFIXPREFIXPREF"
+	case 2: // 16 characters, self-overlapping (first = last): about 1 build in 64 has such a prefix
+		var sb strings.Builder
+		for i := 0; i < 15; i++ {
+			sb.WriteByte(keyAlphabet[r.Intn(len(keyAlphabet))])
+		}
+		s := sb.String()
+		return s + s[:1]
 	default:
 		var sb strings.Builder
 		for i := 0; i < 16; i++ {
@@ -60,6 +67,7 @@ func piecesCoq(ps []linker.VerifPiece) string {
 // range, malformed keys (wrong kind letter, a non-digit, truncated)
 func randOutput(r *Rng, prefix string, nf, nc int) (string, int, bool) {
 	clean := len(prefix) >= 16 && prefix != "PREFIXPREFIXPREF"
+	var keyPos []int
 	var sb strings.Builder
 	valid := 0
 	segs := r.Range(0, 6)
@@ -68,9 +76,11 @@ func randOutput(r *Rng, prefix string, nf, nc int) (string, int, bool) {
 		switch c := r.Intn(20); {
 		case c < 11: // valid key
 			if r.Bool() && nf > 0 {
+				keyPos = append(keyPos, sb.Len())
 				fmt.Fprintf(&sb, "%sA%08d", prefix, r.Intn(nf))
 				valid++
 			} else if nc > 0 {
+				keyPos = append(keyPos, sb.Len())
 				fmt.Fprintf(&sb, "%sC%08d", prefix, r.Intn(nc))
 				valid++
 			}
@@ -97,6 +107,11 @@ func randOutput(r *Rng, prefix string, nf, nc int) (string, int, bool) {
 		case c == 16: // prefix twice
 			clean = false
 			sb.WriteString(prefix)
+		case c == 18 && nc > 0: // all but the last character of the prefix directly before a real key
+			sb.WriteString(prefix[:len(prefix)-1])
+			keyPos = append(keyPos, sb.Len())
+			fmt.Fprintf(&sb, "%sC%08d", prefix, r.Intn(nc))
+			valid++
 		case c == 17:
 			clean = false
 			fmt.Fprintf(&sb, "%sC%09d", prefix, r.Intn(nc+1))
@@ -105,11 +120,30 @@ func randOutput(r *Rng, prefix string, nf, nc int) (string, int, bool) {
 	if r.Chance(70) {
 		sb.WriteString(randText(r, prefix))
 	}
-	// the random text can assemble the prefix by itself (a proper prefix of it followed by the
-	// right character): the output is "clean" only if the prefix occurs exactly at the valid keys
+	// DECISION (see lib/propcfg/C18.json): the theorems about recognising keys assume a CLEAN
+	// text - the prefix occurs exactly at the placed keys (coq: C19.SubstProofs.clean,
+	// C18 Properties.clean_text_is_split_at_its_keys). Random text can assemble the prefix by
+	// itself, also OVERLAPPING a placed key when the prefix is self-overlapping (first char =
+	// last char and the 15 other characters right before a key). Such texts need knowledge of the
+	// build's random prefix and are outside the property's promise; they stay in the
+	// correspondence cases (model = code on them) but are not "clean" for the predicate.
 	out := sb.String()
-	if strings.Count(out, prefix) != valid {
-		clean = false
+	if clean {
+		var occ []int
+		for i := 0; i+len(prefix) <= len(out); i++ { // every occurrence, overlapping ones included
+			if out[i:i+len(prefix)] == prefix {
+				occ = append(occ, i)
+			}
+		}
+		if len(occ) != len(keyPos) {
+			clean = false
+		} else {
+			for i := range occ {
+				if occ[i] != keyPos[i] {
+					clean = false
+				}
+			}
+		}
 	}
 	return out, valid, clean
 }
@@ -244,7 +278,11 @@ func piecesCases(r *Rng, n int, cf *CoqFile, st *Stats) {
 		if has && gcount != len(gout) {
 			st.Fail("byte-count-differs-from-substituted-length", map[string]interface{}{"scenario": "accurateFinalByteCount", "pieces": fmt.Sprint(ps), "publicPath": public, "fromDir": fromDir}, gcount, len(gout))
 		}
-		if len(prefix) >= 16 && strings.Contains(string(gout), prefix) && !strings.Contains(piecesData(ps)+string(joiner), prefix) {
+		// (no_placeholder_survives: an occurrence of the prefix in the result can only overlap a
+		// substituted path; a data piece that ends with a beginning of the prefix, or starts with an
+		// end of it, can complete it with path bytes - such texts need knowledge of the random
+		// prefix and are excluded, like the non-clean texts above)
+		if len(prefix) >= 16 && !straddleRisk(ps, prefix) && strings.Contains(string(gout), prefix) && !strings.Contains(piecesData(ps)+string(joiner), prefix) {
 			st.Fail("placeholder-survives-substitution", map[string]interface{}{"scenario": "substituteFinalPaths", "pieces": fmt.Sprint(ps), "prefix": prefix}, string(gout), "no occurrence of the prefix")
 		}
 	}
@@ -258,4 +296,16 @@ func piecesData(ps []linker.VerifPiece) string {
 		sb.WriteByte(0)
 	}
 	return sb.String()
+}
+
+func straddleRisk(ps []linker.VerifPiece, prefix string) bool {
+	for _, p := range ps {
+		d := string(p.Data)
+		for k := 1; k < len(prefix); k++ {
+			if strings.HasSuffix(d, prefix[:k]) || strings.HasPrefix(d, prefix[len(prefix)-k:]) {
+				return true
+			}
+		}
+	}
+	return false
 }
